@@ -139,6 +139,18 @@ def rule_CF(ctx, tier):
                 rr.ok("default %s = %s as documented" % (name, doc))
             else:
                 rr.fail("default:%s" % name, "`--%s` documents [default: %s] but Config::default sets %s" % (name, doc, og.show(dvals[name])), where=d.span)
+    # ... and the shipped template: the numeric value it shows for a key is the value Config::default gives that key (the template
+    # is the documentation of the defaults; `btc_rpc_port` is the exception, its default is chosen by the network in verify)
+    if os.path.exists(tpl):
+        for line in open(tpl):
+            m_ = re.match(r"\s*([a-z_0-9]+)\s*=\s*(\d+)\s*$", line)
+            if not m_ or m_.group(1) == "btc_rpc_port" or m_.group(1) not in dvals:
+                continue
+            k = const_of(dvals[m_.group(1)])
+            if k and k[0] == int(m_.group(2)):
+                rr.ok("default %s = %s as in conf_template.toml" % (m_.group(1), m_.group(2)))
+            elif k:
+                rr.fail("default-vs-template:%s" % m_.group(1), "conf_template.toml documents %s = %s, Config::default sets %s: an operator who leaves the key out gets another value than the documented default" % (m_.group(1), m_.group(2), k[0]), where=d.span)
     # auth table
     want = {(False, False, True): "UserPass", (True, True, False): "CookieFile", (True, True, True): "Invalid"}
     allok = True
